@@ -9,10 +9,10 @@ from .rule import ok, bad, undecided
 
 # Audited exceptions to BL, one reason per line.  key = (function, site kind/what, held class)
 BL_EXCEPTIONS = {
-    ('<desync::pipe::PipeStream as core::ops::drop::Drop>::drop', 'wake', 'PipeStream.core'):
+    ('<desync::PipeStream as core::ops::drop::Drop>::drop', 'wake', 'PipeStream.core'):
         'the slot notify_stream_closed only ever holds the pipe\'s own PipeWaker (checked: every store is the producer closure\'s waker parameter); '
         'its wake schedules a job and never takes PipeStream.core (lock order checked by LO)',
-    ('<desync::pipe::PipeStream as core::ops::drop::Drop>::drop', 'wake', 'PipeStream.core'):
+    ('<desync::PipeStream as core::ops::drop::Drop>::drop', 'wake', 'PipeStream.core'):
         'the slot notify_stream_closed only ever holds the pipe\'s own PipeWaker (checked by LW-prov: every store is the producer closure\'s waker parameter); '
         'its wake schedules a job and never takes PipeStream.core (lock order checked by LO)',
 }
@@ -26,7 +26,7 @@ def cg(ctx):
 
 # Wake sites whose waker provenance is known (checked by LW-prov in rules_lw): the call can only reach these ArcWake impls.
 WAKE_PROVENANCE = {
-    '<desync::pipe::PipeStream as core::ops::drop::Drop>::drop': ['<desync::pipe::PipeWaker as futures_task::arc_wake::ArcWake>::wake_by_ref'],
+    '<desync::PipeStream as core::ops::drop::Drop>::drop': ['<desync::PipeWaker as futures_task::arc_wake::ArcWake>::wake_by_ref'],
 }
 
 
@@ -195,7 +195,7 @@ def _job_drop_sites(ctx):
     """Drop terminators of values that (may) contain a queued job: user destructors and signaller wake-ups run there.
     Built MIR still has a Drop for values that were moved away; only drops of possibly-initialised locals count."""
     for fn in ctx.F.crate_fns():
-        tracked = {i: 'job' for i, l in enumerate(fn.locals) if 'dyn(desync::scheduler::job::ScheduledJob' in l['ty'] and not l['ty'].startswith('&') and not l['ty'].startswith('*')}
+        tracked = {i: 'job' for i, l in enumerate(fn.locals) if 'dyn(desync::ScheduledJob' in l['ty'] and not l['ty'].startswith('&') and not l['ty'].startswith('*')}
         if not tracked:
             continue
         live = Held(fn, tracked)
@@ -207,7 +207,7 @@ def _job_drop_sites(ctx):
                     yield fn, bb, fn.local_ty(l)
 
 
-JOIN_HANDLE_TYPES = ('desync::scheduler::scheduler_thread::SchedulerThread', 'std::thread::join_handle::JoinHandle')
+JOIN_HANDLE_TYPES = ('desync::SchedulerThread', 'std::thread::join_handle::JoinHandle')
 
 
 def bounded_join(ctx, fn, bb):
@@ -349,7 +349,7 @@ def try_rule(ctx):
             elif is_internal(cls):
                 out.append(bad('TRY', key, 'try_lock on %s: a lock that is merely held for a moment is read as a fact about the protected value (the holder may be about to change it)' % cls, loc=fn.loc(bb), fn=fn.name))
     # handshake lock of the dormant-thread protocol must be a blocking lock
-    dorm = ctx.F.fn('desync::scheduler::core::SchedulerCore::schedule_dormant')
+    dorm = ctx.F.fn('desync::SchedulerCore::schedule_dormant')
     if not dorm:
         out.append(undecided('TRY', 'anchor', 'SchedulerCore::schedule_dormant not found'))
     else:
